@@ -1,8 +1,10 @@
+import re
 from .config import Config
 from .abbreviation.convert import AbbreviationAttribute, AbbreviationNode
 
 expression_start = '{'
 expression_end = '}'
+re_line_break = re.compile(r'\r\n|\r|\n')
 
 class OutputStream:
     __slots__ = ('options', '_value', 'level', 'offset', 'line', 'column')
@@ -36,8 +38,12 @@ class OutputStream:
         # If given value contains newlines, we should push content line-by-line and
         # use `push_newline()` to maintain proper line/column state
         first = True
+        lines = re_line_break.split(value)
+        if lines[-1] == '':
+            # A trailing line break does not start another line
+            lines.pop()
 
-        for line in value.splitlines():
+        for line in lines:
             if not first: self.push_newline(True)
             first = False
             self.push(line)
